@@ -8,6 +8,7 @@ every run) equals the hand model `Model.ConstFold` that the theorems of C38 are 
 The `ty` object is seen through the attributes the functions read (`ty.bits`,
 `ty.signed`, `ty.is_integer`, the two `isinstance` tests), each an `Int` parameter.
 -/
+set_option linter.unusedSimpArgs false   -- simp sets list alternative spellings (`1 << n` / `2 ** n`)
 namespace Proofs.T1.ConstFold
 open Model Model.PyRt Model.ConstFold Gen.Py_constantfolding Proofs.T1
 
@@ -28,7 +29,7 @@ theorem gen_correct_eq_model (fuel : Nat) (value : Int) (ty : Typ) :
   unfold Gen.Py_constantfolding.correct Model.ConstFold.correct
   have hpos : (0 : Int) < 2 ^ ty.bits := Int.pow_pos (by decide)
   have h0 : 0 ≤ value % 2 ^ ty.bits := Int.emod_nonneg _ (by omega)
-  simp only [shl_natCast, bind_ok, Int.one_mul]
+  simp only [shl_natCast, pow_natCast, bind_ok, Int.one_mul]
   simp only [mod_of_pos _ hpos, bind_ok, PyRt.bitLength, PyRt.ofBool, bitLength_eq h0]
   cases ty.signed
   · simp
